@@ -139,19 +139,26 @@ KF16Class(f, cwd, sp, st, out, canon) ==
            /\ LET t == ResAbs(f, JoinClean(Root, f[r.p].tgt), FALSE) IN t.st = "ok" /\ f[t.p].k = "d" )
   THEN "KF-C16-root-given-as-symlink" ELSE ""
 
+\* ---- degenerate rule lines (C19): every line of length <= 2 over a hostile character set ----
+LineChars == { " ", "!", "#", "/", "*", "\\", "a", "[", "?", "\t" }
+RawLines == { <<c>> : c \in LineChars } \cup { <<c, d>> : c \in LineChars, d \in LineChars }
+RawFiles == { <<l>> : l \in RawLines } \cup { <<l, <<"b">>>> : l \in { <<"!">>, <<" ">>, <<"[">>, <<"a", "[">>, <<"\\">>, <<"!", "[">> } }
+
 Trees == CASE Universe = "spell" -> { SpellTree } [] Universe = "safety" -> SafetyTrees(TL, TK, TM)
            [] Universe = "safetyq" -> SafetyTrees(TLq, TKq, TMq)
            [] Universe = "rt" -> RTTrees
            [] Universe = "judge" -> { ArenaBase }
+           [] Universe = "lines" -> { IgnoreTree }
            [] OTHER -> { IgnoreTree }
 
-OptSets == CASE Universe \in {"safety", "safetyq", "rt"} ->
+OptSets == CASE Universe = "lines" -> { [ign |-> TRUE, deref |-> FALSE, allow |-> {}, allowrel |-> {}] } []
+               Universe \in {"safety", "safetyq", "rt"} ->
                   { [ign |-> i, deref |-> d, allow |-> al, allowrel |-> {}] : i \in BOOLEAN, d \in BOOLEAN, al \in { {}, {<<"A","ext">>} } }
                   \cup { [ign |-> FALSE, deref |-> d, allow |-> {}, allowrel |-> { <<"..","ext">> }] : d \in BOOLEAN }
              [] OTHER -> { [ign |-> i, deref |-> d, allow |-> {}, allowrel |-> {}] : i \in BOOLEAN, d \in BOOLEAN }
 
 Init == /\ pfs \in Trees
-        /\ rules \in (IF Universe \in {"safety", "safetyq", "rt", "judge"} THEN { <<>> } ELSE IF Universe = "spell" THEN { SpellRules } ELSE RuleLists)
+        /\ rules \in (IF Universe = "lines" THEN RawFiles ELSE IF Universe \in {"safety", "safetyq", "rt", "judge"} THEN { <<>> } ELSE IF Universe = "spell" THEN { SpellRules } ELSE RuleLists)
         /\ call = FALSE /\ res = "none"
 
 Lines(rl) == [i \in DOMAIN rl |-> SpellRule(rl[i])]
@@ -226,13 +233,16 @@ MetaOf(out) == [files |-> EntryNames(out), size |-> 0, bodybytes |-> 0, hdrsizes
 DoPack ==
   /\ ~call
   /\ \E opts \in OptSets :
-       LET r == PackRun(pfs, <<"A">>, <<"", "A", "src">>, opts, Lines(rules))
+       LET raw == Universe = "lines"
+           r == PackRun(pfs, <<"A">>, <<"", "A", "src">>, opts, IF raw THEN rules ELSE Lines(rules))
            u == IF r.st = "ok" THEN UnpackOf(pfs, r.out) ELSE [st |-> "none", fs |-> pfs]
            rt == [st |-> u.st, tree |-> SubTree(u.fs, MCOut)]
            rec == [fam |-> "pack", tree |-> Snapshot(pfs), src |-> Src, cwd |-> <<"A">>, spelling |-> <<"", "A", "src">>,
-                   opts |-> opts, rules |-> rules, lines |-> [i \in DOMAIN rules |-> Cat(SpellRule(rules[i]))],
+                   opts |-> opts, rules |-> IF raw THEN <<>> ELSE rules,
+                   lines |-> [i \in DOMAIN rules |-> Cat(IF raw THEN rules[i] ELSE SpellRule(rules[i]))],
                    st |-> r.st, out |-> r.out, rt |-> [st |-> u.st, fs |-> Snapshot(SubTreeAbs(u.fs, MCOut))],
-                   v |-> Verdict(pfs, opts, rules, r.st, r.out, MetaOf(r.out), rt, r)]
+                   v |-> IF raw THEN [c19 |-> C19Bad(r.st) = {}, w19 |-> C19Bad(r.st), kf19 |-> ""]
+                         ELSE Verdict(pfs, opts, rules, r.st, r.out, MetaOf(r.out), rt, r)]
        IN /\ call' = TRUE /\ res' = r.st
           /\ PrintT("@@" \o ToJson(rec))
   /\ UNCHANGED <<pfs, rules>>
